@@ -4,8 +4,9 @@
    series / continued-fraction drivers, Mlgamma/Mgamma), the exact tables, and
    the closed forms against which the Boost-ported kernels are certified at
    anchors.  No theorem about the accuracy of the kernels between anchors. *)
-From Coq Require Import ZArith QArith Reals List Bool.
+From Coq Require Import ZArith QArith Reals List Bool Lia.
 From ADV Require Import Base.Num C13.Model C13.Spec C13.Spec2 C13.ProofsGlue C13.ProofsDrivers C13.ProofsTables C13.ProofsAnchors C13.ProofsAnchors2.
+From ADV Require Import C13.Spec3 C13.ProofsAnchors3.
 Import ListNotations.
 Local Open Scope R_scope.
 
@@ -140,3 +141,47 @@ Theorem Digamma_at_quarter_minus_integers : forall psi : R -> R,
   (forall m : nat, psi (1 / 4 - INR (Datatypes.S m) + 1) = psi (1 / 4 - INR (Datatypes.S m)) + 1 / (1 / 4 - INR (Datatypes.S m))) ->
   forall m, psi (1 / 4 - INR m) - psi 1 = psi_mquarter_diff m.
 Proof. exact psi_mquarter_closed. Qed.
+
+(* ---- (5) round 3: sign / parity / reflection branches ("whole domain") ---- *)
+(* I_n(-x) = (-1)^n I_n(x) for integer order n: the value BesselI must return for x < 0 *)
+Theorem BesselI_integer_order_parity : forall I : nat -> R -> R,
+  is_bessel_I I ->
+  forall n x, I n (- x) = (-1) ^ n * I n x.
+Proof. exact bessel_int_order_parity. Qed.
+(* ... hence for odd n and x < 0 the value is negative and LogBesselI has no real value (NaN specified) ... *)
+Theorem BesselI_odd_order_negative_argument : forall I : nat -> R -> R,
+  is_bessel_I I ->
+  forall n x, Nat.odd n = true -> 0 < I n x -> I n (- x) < 0.
+Proof. exact bessel_int_order_odd_negative. Qed.
+(* ... and for even n LogBesselI(n, -x) = LogBesselI(n, x) *)
+Theorem BesselI_even_order_negative_argument : forall I : nat -> R -> R,
+  is_bessel_I I ->
+  forall n x, Nat.even n = true -> I n (- x) = I n x.
+Proof. exact bessel_int_order_even. Qed.
+(* psi(3/4 - m): after the reflection of digamma_imp the fractional part is 1/4 (the side of `remainder > 0.5` that 1/4 - m does not take) *)
+Theorem Digamma_at_three_quarters_minus_integers : forall psi : R -> R,
+  psi (3 / 4) - psi 1 = PI / 2 - 3 * ln 2 ->
+  (forall m : nat, psi (3 / 4 - INR (Datatypes.S m) + 1) = psi (3 / 4 - INR (Datatypes.S m)) + 1 / (3 / 4 - INR (Datatypes.S m))) ->
+  forall m, psi (3 / 4 - INR m) - psi 1 = psi_m3quarter_diff m.
+Proof. exact psi_m3quarter_closed. Qed.
+(* psi_n(1/2 - m), n >= 1: the reflection branch of polygamma_imp *)
+Theorem Polygamma_at_negative_half_integers : forall (n : nat) (pn : R -> R),
+  pn (1 / 2) = (2 ^ (Datatypes.S n) - 1) * pn 1 ->
+  (forall m : nat, pn (1 / 2 - INR (Datatypes.S m) + 1) =
+     pn (1 / 2 - INR (Datatypes.S m)) + (-1) ^ n * IZR (zfact n) / (1 / 2 - INR (Datatypes.S m)) ^ (Datatypes.S n)) ->
+  forall m, pn (1 / 2 - INR m) - (2 ^ (Datatypes.S n) - 1) * pn 1 = polyg_mhalf_diff n m.
+Proof. exact polyg_mhalf_closed. Qed.
+(* zeta(-(m+1/2)) from zeta(m + 3/2) through Riemann's functional equation (reflection branch of zeta_imp) *)
+Theorem Zeta_reflection_at_negative_half_integers : forall Zf G : R -> R,
+  (forall n, G (INR n + 1 / 2) = gamma_half n) ->
+  (forall s, s < 0 -> Zf s = 2 * Rpower (2 * PI) (s - 1) * sin (PI * s / 2) * G (1 - s) * Zf (1 - s)) ->
+  forall m, Zf (- (INR m + 1 / 2)) = zeta_reflect_mhalf m (Zf (INR m + 1 + 1 / 2)).
+Proof. exact zeta_reflect_mhalf_closed. Qed.
+(* the series hypothesis is satisfiable at x = 0: I_0(0) = 1 *)
+Example bessel_series_at_zero : bessel_term 0 0 0 = 1 /\ forall k, bessel_term 0 0 (Datatypes.S k) = 0.
+Proof.
+  split; unfold bessel_term.
+  - simpl. field.
+  - intro k. replace (2 * Datatypes.S k + 0)%nat with (Datatypes.S (2 * k + 1)) by lia.
+    rewrite <- tech_pow_Rmult. unfold Rdiv. rewrite !Rmult_0_l. reflexivity.
+Qed.
